@@ -24,6 +24,42 @@ def register(K):
         d = st.read("fickle.Opcode._data", r, Val)
         return z3.If(Val.is_N(d), ENCODE(r), Val.y(d))
 
+    # what ASTProperties(ast.NodeVisitor).visit collects from a tree, as functions of the tree (trusted model of NodeVisitor; sampled by replay)
+    PROPS_OF = {"imports": z3.Function("IMPORTS_OF", Val, SeqV), "calls": z3.Function("CALLS_OF", Val, SeqV),
+                "non_setstate_calls": z3.Function("NON_SETSTATE_CALLS_OF", Val, SeqV)}
+    LSAFE_OF = z3.Function("LIKELY_SAFE_IMPORTS_OF", Val, z3.ArraySort(Val, z3.BoolSort()))
+    K.props_of = dict(PROPS_OF, likely_safe=LSAFE_OF, interp=INTERPF)
+
+    def props_ok_term(eng, st, pr):
+        """the four collections of an ASTProperties object are those of the tree it visited, and no AST node owns its lists"""
+        of = st.read("fickle.ASTProperties._of", pr, Val)
+        facts = []
+        for f, F in PROPS_OF.items():
+            fv = st.read(f"fickle.ASTProperties.{f}", pr, Val)
+            lst = Val.r(fv)
+            facts += [Val.is_R(fv), st.items(lst) == F(of), z3.Not(z3.Select(st.comp("list.nodeowned"), lst))]
+        lv = st.read("fickle.ASTProperties.likely_safe_imports", pr, Val)
+        ls = Val.r(lv)
+        facts += [Val.is_R(lv), st.read("set.has", ls) == LSAFE_OF(of)]
+        return z3.And(*facts)
+
+    @K.spec("props_ok")
+    def props_ok(eng, st, pr):
+        return vbool(props_ok_term(eng, st, eng.as_ref(pr, st)))
+
+    for _f, _F in PROPS_OF.items():
+        def _mk(F=_F, f=_f):
+            def fn(eng, st, p):
+                """the collection ASTProperties gathers from the module this pickle decompiles to (ghost function of the opcode sequence)"""
+                et = {"imports": "ast.ImportFrom", "calls": "ast.Call", "non_setstate_calls": "ast.Call"}[f]
+                return V("seq", F(INTERPF(items_of(eng, st, p))), elem=et)
+            return fn
+        K.spec_funcs[f"{_f}_of"] = _mk()
+
+    @K.spec("likely_safe_of")
+    def likely_safe_of(eng, st, p, name):
+        return vbool(z3.Select(LSAFE_OF(INTERPF(items_of(eng, st, p))), box(name)))
+
     DECOMP = z3.Function("DECOMPILES", SeqV, z3.BoolSort())     # interpreting this opcode sequence from a fresh Interpreter does not raise
 
     @K.spec("DECOMPILES")
@@ -84,6 +120,12 @@ def register(K):
         private = z3.Not(z3.Select(st.comp("list.nodeowned"), lst.t))
         return vbool(z3.And(private, z3.Or(Val.is_N(a.t), z3.And(a.t == cur, DECOMP(items_of(eng, st, p)))),
                             z3.Or(Val.is_N(pr.t), z3.And(z3.Not(Val.is_N(a.t)), Val.is_R(pr.t), of == a.t))))
+
+    @K.spec("inv_props")
+    def inv_props(eng, st, p):
+        """C04's strengthening of the invariant: a cached ASTProperties holds exactly what NodeVisitor collects from the cached tree"""
+        pr = eng.spec_value("p._properties", st, {"p": p})
+        return vbool(z3.Or(Val.is_N(pr.t), props_ok_term(eng, st, Val.r(pr.t))))
 
     @K.spec("list_insert")
     def list_insert(eng, st, seq, index, x):
@@ -165,7 +207,9 @@ def register(K):
     K.contract("fickle.ASTProperties.__init__", params="self: fickle.ASTProperties",
                modifies=["self.imports", "self.calls", "self.non_setstate_calls", "self.likely_safe_imports"],
                ensures=["fresh_since_entry(self.imports)", "fresh_since_entry(self.calls)", "fresh_since_entry(self.non_setstate_calls)",
-                        "fresh_since_entry(self.likely_safe_imports)"])
+                        "fresh_since_entry(self.likely_safe_imports)", "private(self.imports)", "private(self.calls)",
+                        "private(self.non_setstate_calls)", "self.imports is not self.calls", "self.imports is not self.non_setstate_calls",
+                        "self.calls is not self.non_setstate_calls"])
     K.contract("fickle.Pickled.properties", params=P, returns="fickle.ASTProperties", requires=["inv(self)"], may_raise_if="self._ast is None",
                modifies=["self._ast", "self._properties", "@list.items:nodeowned", "@ast.lineno", "@ast.col_offset", "@iterator.pos"],
                may_raise=ERR, exact_raises=False,
@@ -180,10 +224,14 @@ def register(K):
     @K.external_method("fickle.ASTProperties", "visit")
     def _visit(eng, st, recv, args, kw, node):
         """ast.NodeVisitor.visit (trusted): walks the tree calling visit_* — abstracted as 'these properties are those of that tree'"""
-        st.write("fickle.ASTProperties._of", recv.t, box(eng.materialize(args[0], st)), Val)
+        tree = box(eng.materialize(args[0], st))
+        st.write("fickle.ASTProperties._of", recv.t, tree, Val)
         for f in ("imports", "calls", "non_setstate_calls"):
             lst = eng.spec_value(f"p.{f}", st, {"p": recv})
-            st.havoc_at("list.items", lst.t)
+            st.set_items(lst.t, PROPS_OF[f](tree))
+        ls = eng.spec_value("p.likely_safe_imports", st, {"p": recv})
+        st.write("set.has", eng.as_ref(ls, st), LSAFE_OF(tree))
+        st.havoc_at("set.card", eng.as_ref(ls, st))
         st.log.append(("visit", recv, args[0], getattr(node, "lineno", 0)))
         return [(st, VNONE)]
 
